@@ -63,7 +63,7 @@ def expand_table(name):
 
 
 def build(disp, stack, table_name, events, mbs=None):
-    is_async = disp == 'async'
+    is_async = disp.startswith('async')
     table = expand_table(table_name)
 
     def mw_sync(i, kind):
@@ -107,9 +107,11 @@ def build(disp, stack, table_name, events, mbs=None):
     mws = [(mw_async if is_async else mw_sync)(i, k) for i, k in enumerate(stack)]
     ehs = {k: [(eh_async if is_async else eh_sync)(hid, kind) for hid, kind in v] for k, v in table.items()}
     cls = pjrpc.server.AsyncDispatcher if is_async else pjrpc.server.Dispatcher
-    d = cls(middlewares=mws, error_handlers=ehs, max_batch_size=mbs)
+    kw = dict(concurrent_batch=False) if disp == 'async-seq' else {}
+    d = cls(middlewares=mws, error_handlers=ehs, max_batch_size=mbs, **kw)
     log = []
-    methods.register(d, TABLE, log, is_async=is_async)
+    # the event-log oracle compares one global sequence: methods do not suspend here (interleavings are C10's business)
+    methods.register(d, TABLE, log, is_async=is_async, pause=False)
     return d, log, table
 
 
@@ -192,7 +194,9 @@ def gen_cases(ctx):
         for stack in itertools.product(['pass', 'short', 'rewrite', 'wrap'], repeat=n):
             for table in HANDLER_TABLES:
                 for rq in list(REQUESTS) + ['unparsable']:
-                    for disp in ('sync', 'async'):
+                    for disp in ('sync', 'async', 'async-seq'):
+                        if disp == 'async-seq' and not isinstance(REQUESTS.get(rq), list):
+                            continue      # sequential batch mode only matters for batches
                         yield dict(stack=stack, table=table, request=rq, disp=disp)
 
 
@@ -203,7 +207,7 @@ def run_case(case, rec):
     d, log, table = build(disp, stack, tname, events, mbs=mbs)
     text = '{"jsonrpc": ' if rq == 'unparsable' else json.dumps(REQUESTS[rq])
     try:
-        if disp == 'async':
+        if disp.startswith('async'):
             loop = VLoop()
             try:
                 r = loop.run(d.dispatch(text, context=CTX))
